@@ -422,7 +422,7 @@ func runHistory(rep *vevid.Report, h history) {
 	}()
 	st, err := kv.VerifNewStore("s", dir, storeOption(h.Cfg))
 	if err != nil {
-		vevid.Fatal("new store: %v", err)
+		vevid.OpFailed("new store: %v", err)
 	}
 	closeStore := func() {
 		if st != nil {
